@@ -68,7 +68,36 @@ func runSolver(sc solverCfg, script string, timeoutS int) solverRes {
 // (all three in parallel when `all` is set).
 func decide(ob *Obligation, timeoutS int, all bool, dumpDir string) {
 	vc := ob.vc
-	plain := vc.script(ob, scriptOpts{model: true})
+	if ob.Expect != "sat" {
+		// pruned scripts first (sound: fewer hypotheses); a non-unsat answer is never trusted from a pruned script
+		full := vc.script(ob, scriptOpts{model: true, noPrune: true})
+		var prev string
+		for _, o := range []scriptOpts{{pruneAlloc: true, rounds: 2}, {pruneAlloc: true, rounds: 4}, {pruneAlloc: true, rounds: 8}, {pruneAlloc: true}, {}} {
+			sc := vc.script(ob, o)
+			if sc == prev || len(sc) >= len(full) {
+				continue
+			}
+			prev = sc
+			t := timeoutS
+			if t > 4 {
+				t = 4
+			}
+			r := runSolver(solvers[0], sc, t)
+			ob.Tried = append(ob.Tried, fmt.Sprintf("%s(pruned %dB):%s:%.2fs", r.solver, len(sc), r.status, r.secs))
+			ob.TimeS += r.secs
+			if r.status == "unsat" {
+				ob.Status = "discharged"
+				ob.Solver = r.solver
+				ob.SMTSize = len(sc)
+				if dumpDir != "" {
+					os.MkdirAll(dumpDir, 0o755)
+					os.WriteFile(filepath.Join(dumpDir, mangle(ob.Name)+".smt2"), []byte(sc), 0o644)
+				}
+				return
+			}
+		}
+	}
+	plain := vc.script(ob, scriptOpts{model: true, noPrune: true})
 	ob.SMTSize = len(plain)
 	if dumpDir != "" {
 		os.MkdirAll(dumpDir, 0o755)
@@ -77,7 +106,7 @@ func decide(ob *Obligation, timeoutS int, all bool, dumpDir string) {
 	try := func(sc solverCfg) solverRes {
 		s := plain
 		if sc.cvc5 {
-			s = vc.script(ob, scriptOpts{model: true, cvc5: true})
+			s = vc.script(ob, scriptOpts{model: true, cvc5: true, noPrune: true})
 		}
 		r := runSolver(sc, s, timeoutS)
 		return r
